@@ -255,27 +255,50 @@ class FailingSeq:
     return self.data[i]
 
 
+def _not_multiple_of_5(x):
+  return x % 5 != 0
+
+
 def run_source(case):
   from ml_metrics._src.chainables import io, transform  # pylint: disable=g-import-not-at-top
   n, bad, exc, skip = case['n'], sorted(set(case['bad'])), case['exc'], case['skip']
   what = f'SequenceDataSource(range({n}) failing at {bad} with {exc}, ignore_error={skip}) shard={case["shard"]}'
   no_slice = case.get('no_slice', False)
   what += f' no_slice={no_slice} splits={case.get("splits")}'
+  # the source skips failing reads itself (ignore_error on the source) or leaves them to the pipeline (iterate(ignore_error))
+  src_skip = case.get('src_skip', skip)
+  op = case.get('op', 'apply')
+  what += f' source.ignore_error={src_skip} op={op}'
+  recs = lambda a, b: [{'a': v} for v in range(a, b)]
   if case.get('splits'):
     # several sequences merged into one source; every sequence has its own failing positions (global numbering)
     cuts = [0] + sorted(min(c, n) for c in case['splits']) + [n]
-    seqs = [FailingSeq(list(range(a, b)), [p - a for p in bad if a <= p < b], exc, no_slice) for a, b in zip(cuts, cuts[1:])]
-    src = io.SequenceDataSource.from_sequences(seqs, ignore_error=skip)
+    seqs = [FailingSeq(recs(a, b), [p - a for p in bad if a <= p < b], exc, no_slice) for a, b in zip(cuts, cuts[1:])]
+    src = io.SequenceDataSource.from_sequences(seqs, ignore_error=src_skip)
     plain = io.SequenceDataSource.from_sequences([list(range(a, b)) for a, b in zip(cuts, cuts[1:])])
   else:
-    src = io.SequenceDataSource(FailingSeq(list(range(n)), bad, exc, no_slice), ignore_error=skip)
+    src = io.SequenceDataSource(FailingSeq(recs(0, n), bad, exc, no_slice), ignore_error=src_skip)
     plain = io.SequenceDataSource(list(range(n)))
   if case['shard']:
     i, k = case['shard']
     src, plain = src.shard(i, k), plain.shard(i, k)
   mine = [int(v) for v in plain]            # the elements of this (shard of the) source when nothing fails
   lo, hi = (mine[0], mine[-1] + 1) if mine else (0, 0)
-  t = transform.TreeTransform.new().data_source(src).apply(targets.add1)
+  t = transform.TreeTransform.new().data_source(src)
+  sink = targets.ListSink()
+  if op == 'apply':
+    t = t.apply(targets.add1, input_keys='a')
+    out_of = lambda v: v + 1
+  elif op == 'assign':
+    t = t.assign('b', fn=targets.add1, input_keys='a')
+    out_of = lambda v: {'a': v, 'b': v + 1}
+  elif op == 'filter':
+    t = t.filter(_not_multiple_of_5, input_keys='a')
+    out_of = lambda v: {'a': v}
+  else:
+    t = t.sink(sink)
+    out_of = lambda v: {'a': v}
+  kept = (lambda v: v % 5 != 0) if op == 'filter' else (lambda v: True)
   skippable = exc in ('ValueError', 'TypeError')
   got, err = [], []
   it = t.make().iterate(ignore_error=skip)
@@ -285,8 +308,10 @@ def run_source(case):
   except Exception as e:  # pylint: disable=broad-exception-caught
     err.append(e)
   inrange_bad = [p for p in bad if lo <= p < hi]
-  if not inrange_bad or (skip and skippable):
-    want = [v + 1 for v in range(lo, hi) if v not in bad]
+  if not inrange_bad or ((skip or src_skip) and skippable):
+    want = [out_of(v) for v in range(lo, hi) if v not in bad and kept(v)]
+    if op == 'sink' and not err:
+      check(sink.data == want, 'sink-saw-wrong-stream', f'{what}: sink holds {sink.data}, want {want}')
     check(not err, 'unexpected-error', lambda: f'{what}: raised {type(err[0]).__name__}: {err[0]}')
     check(got == want, 'skipping-loses-or-corrupts-elements', f'{what}: delivered {got}, want {want}')
   else:
@@ -294,10 +319,10 @@ def run_source(case):
     check(bool(err), 'error-swallowed', f'{what}: read {first} fails but no error surfaced; delivered {got}')
     chain = _cause_chain(err[0])
     check(any(type(c) is targets.EXC[exc] for c in chain), 'original-exception-not-in-cause-chain', f'{what}: raised {[type(c).__name__ for c in chain]}')
-    want = [v + 1 for v in range(lo, first)]
+    want = [out_of(v) for v in range(lo, first) if kept(v)]
     check(got == want, 'wrong-elements-before-first-error', f'{what}: delivered {got} before the error, want {want}')
   nt = bool(inrange_bad) and inrange_bad[0] < hi - 1
-  return {'nontrivial': nt, 'classes': [f'source-skip-{skip}', f'exc-{exc}'] + (['adjacent-failures'] if any(b + 1 in bad for b in bad) else [])}
+  return {'nontrivial': nt, 'classes': [f'source-skip-{src_skip}', f'iterate-skip-{skip}', f'source-op-{op}', f'exc-{exc}'] + (['adjacent-failures'] if any(b + 1 in bad for b in bad) else [])}
 
 
 def strat_source(tier):
@@ -313,6 +338,8 @@ def strat_source(tier):
             'skip': draw(st.booleans()), 'shard': shard, 'no_slice': draw(st.sampled_from([False, False, True]))}
     if n and draw(st.integers(0, 3)) == 0:
       case['splits'] = draw(st.lists(st.integers(0, n), min_size=1, max_size=3))
+    case['op'] = draw(st.sampled_from(['apply', 'assign', 'filter', 'sink']))
+    case['src_skip'] = draw(st.sampled_from([case['skip'], case['skip'], not case['skip']]))
     return case
   return s()
 
